@@ -31,15 +31,20 @@ func init() {
 			panic(err)
 		}
 		watchPool(sh.tc)
+		histPanics := []string{}
 		for i := range hs.Hist {
 			h := hs.Hist[i]
 			h.SID = fmt.Sprintf("%s/h%d", hs.SID, i)
-			_ = runOn(sh, &h, seed+int64(i)+1, fmt.Sprintf("h%d", i))
+			ho := runOn(sh, &h, seed+int64(i)+1, fmt.Sprintf("h%d", i))
+			if ho.Ret.Panic && h.Hd.Exit != "panic" {
+				histPanics = append(histPanics, fmt.Sprintf("h%d: %s", i, ho.Ret.PanicV))
+			}
 		}
 		probe := hs.Probe
 		probe.SID = hs.SID
 		obs := runOn(sh, &probe, seed, "probe")
 		obs.Pool, obs.PoolMaxCap = takePoolLog(sh.tc)
+		obs.HistPanics = histPanics
 		fresh := hs.Probe
 		ref := runOnce(&fresh, seed)
 		obs.Ref = refObs{Has: true, Kind: "history", Disp: ref.Disp, Cl: ref.Cl, Ret: ref.Ret}
